@@ -6,7 +6,10 @@
 #ifndef VF_TETL_CONFIG_HPP
 #define VF_TETL_CONFIG_HPP
 
-#define TETL_ENABLE_ASSERTIONS
+// the `ccnd` contract flavour models a release build (-DNDEBUG) that turns contract checks on WITHOUT turning tetl's own assertions on
+#if !defined(VF_NO_ENABLE_ASSERTIONS)
+    #define TETL_ENABLE_ASSERTIONS
+#endif
 #define TETL_ENABLE_CUSTOM_ASSERT_HANDLER
 #define TETL_ENABLE_CUSTOM_EXCEPTION_HANDLER
 
